@@ -19,10 +19,14 @@ def job(g, op, tier):
     key = "%s/%s" % (t, op)
     kinds = OPS[op]
     ins, rules, asm = [], [], []
+    unit_asm, unit_idx = [], []     # the unit-norm constraints as explicit conditions (for counterexample queries) / index sets (to project inputs)
     tang = None
     for ki, k in enumerate(kinds):
         if k == "g":
             x = G.syms("g%d_" % ki, g.rep)
+            for sl in g.unit_slices():
+                unit_asm.append((Cond("cmp", G.dot([x[i] for i in sl], [x[i] for i in sl]), T.Const(1), "oeq"), True))
+                unit_idx.append([len(ins) + i for i in sl])
             ins += x
             rules += g.rules(x)
             asm += g.canon(x)
@@ -90,7 +94,25 @@ def job(g, op, tier):
                 if ok:
                     res.add_raw(name, "holds", "z3: path condition entails q_w >= 0 on this return path")
                 else:
-                    w = sign_witness(h, fn, g, sampler, sl)
+                    w = None
+                    # the solver's own counterexample first: a model of  PC & assumptions & q_w < 0  replayed on the native build
+                    rs, model = solver.counterexample(p.pc, Cond("cmp", p.outs[sl[3]], T.Const(0), "oge"), True, asm + unit_asm, timeout_ms=5000)
+                    if rs == "sat":
+                        env = {T.ATOM_LIST[i][1]: v for i, v in model.items() if T.ATOM_LIST[i][0] == "sym"}
+                        base = sampler(7)
+                        inp = [env.get(x.args[0], b) for x, b in zip(ins, base)]
+                        for idx in unit_idx:      # project onto the constraint manifold: only VALID elements are replayed
+                            nn = math.sqrt(sum(inp[i] ** 2 for i in idx))
+                            if nn > 0:
+                                for i in idx:
+                                    inp[i] /= nn
+                        valid = all(abs(sum(inp[i] ** 2 for i in idx) - 1) < 1e-12 for idx in unit_idx) and all(inp[idx[-1]] >= 0 for idx in unit_idx if len(idx) == 4)
+                        if valid and all(v == v and abs(v) < 1e300 for v in inp):
+                            out = h.native(fn, inp, g.rep)
+                            if out[sl[3]] < 0:
+                                w = "z3 model replayed natively: q_w = %r < 0 at input %r" % (out[sl[3]], inp)
+                    if w is None:
+                        w = sign_witness(h, fn, g, sampler, sl)
                     if w:
                         res.add_raw(name, "violated", "q_w < 0 reachable")
                         res.violations.append({"key": key + "/canonical-sign", "what": "%s: %s" % (key, w)})
